@@ -18,6 +18,8 @@ class Case:
 
 def load_contracts(prop):
     mods = []
+    if os.environ.get("VERIF_MODULE"):          # development mode (./check Cxx --module contracts.wip_x): one module, evidence to a scratch dir
+        return [importlib.import_module(os.environ["VERIF_MODULE"])]
     for path in sorted(glob.glob(os.path.join(ROOT, "contracts", f"{prop}_*.py"))):
         name = "contracts." + os.path.basename(path)[:-3]
         mods.append(importlib.import_module(name))
@@ -160,8 +162,9 @@ def finish(prop, tier, seed, meta, outs, t0, ncases):
         if k in meta: cov[k] = meta[k]
     ev = dict(property_id=prop, tier=tier, seed=seed, level=level, coverage=cov, assumptions=assumptions,
               wall_s=round(time.time() - t0, 2), violations=len(viol))
-    os.makedirs(os.path.join(ROOT, "evidence"), exist_ok=True)
-    with open(os.path.join(ROOT, "evidence", f"{prop}.json"), "w") as f: json.dump(ev, f, indent=1, default=str)
+    evdir = os.environ.get("VERIF_EVIDENCE_DIR") or os.path.join(ROOT, "evidence")
+    os.makedirs(evdir, exist_ok=True)
+    with open(os.path.join(evdir, f"{prop}.json"), "w") as f: json.dump(ev, f, indent=1, default=str)
     for l in lines: print(l)
     print(f"{prop} [{tier}]: {discharged}/{obligations} obligations discharged, {bounded} bounded, {len(kf_lines)} known findings, "
           f"{len(viol)} violations, {len(undec)} undecided, {len(faults)} faults, {ncases} cases, {time.time() - t0:.1f}s")
